@@ -73,7 +73,12 @@ fn main() {
     match mode.as_str() {
         "recover" => {
             if !dirp.join("MANIFEST").exists() {
-                // the server's rule: no MANIFEST => fresh start
+                // the server's rule: no MANIFEST => fresh start, unless the directory still holds data
+                if HnswBackend::data_dir_has_persisted_state(dirp) {
+                    println!("{}", json!({"outcome": "failed", "state": [], "extra": 0,
+                        "why": "data directory contains WAL/snapshot data but no MANIFEST"}));
+                    return;
+                }
                 println!("{}", json!({"outcome": "fresh", "state": proj.census_json(&[]).0, "extra": 0}));
                 return;
             }
